@@ -1,1 +1,198 @@
-let cmd_walk (_ : string list) : string = "unimplemented"
+(* walkdriver.ml -- the `walk` command of the model driver: instantiates the layers of Walk.v with the
+   model's own programs (component programs, complete program, negation partition) and prints the
+   run of the stack machine.  Glue only.
+
+     walk <tree> <mode> <min> <max> <layer>...
+       tree   F | E | U | D[<hexname>=<tree>,...]      (the resolved view of the directory given to the walk)
+       mode   P | G<hex glob>
+       layer  N<hex>[,<hex>...] | F[<hex relative path>:<T|F>,...]                                   *)
+
+module L = Stdlib.List
+open BinNums
+
+(* shared helpers are passed in by driver.ml to avoid a dependency cycle *)
+let to_str : (string -> coq_N list) ref = ref (fun _ -> [])
+let of_str : (coq_N list -> string) ref = ref (fun _ -> "")
+let unhex : (string -> string) ref = ref (fun s -> s)
+let hex : (string -> string) ref = ref (fun s -> s)
+let nat_of_int : (int -> Datatypes.nat) ref = ref (fun _ -> Datatypes.O)
+let int_of_nat : (Datatypes.nat -> int) ref = ref (fun _ -> 0)
+let full_match : (Regex.re -> coq_N list -> bool) ref = ref (fun _ _ -> false)
+
+exception Bad of string
+
+(* ---- tree syntax ---------------------------------------------------------------------------------- *)
+let parse_tree (s : string) : Walk.node =
+  let n = String.length s in
+  let pos = ref 0 in
+  let rec node () : Walk.node =
+    if !pos >= n then raise (Bad "tree: unexpected end");
+    match s.[!pos] with
+    | 'F' -> incr pos; Walk.NFile
+    | 'E' -> incr pos; Walk.NErr
+    | 'U' -> incr pos; Walk.NDirErr
+    | 'D' ->
+        incr pos;
+        if s.[!pos] <> '[' then raise (Bad "tree: expected [");
+        incr pos;
+        let kids = ref [] in
+        while s.[!pos] <> ']' do
+          let start = !pos in
+          while s.[!pos] <> '=' do incr pos done;
+          let name = String.sub s start (!pos - start) in
+          incr pos;
+          let k = node () in
+          kids := (!to_str (!unhex name), k) :: !kids;
+          if s.[!pos] = ',' then incr pos
+        done;
+        incr pos;
+        Walk.NDir (L.rev !kids)
+    | c -> raise (Bad (Printf.sprintf "tree: unexpected %c" c))
+  in
+  node ()
+
+let rec lookup (n : Walk.node) (p : coq_N list list) : Walk.node =
+  match p with
+  | [] -> n
+  | c :: p' -> (
+      match n with
+      | Walk.NDir kids -> (
+          match L.find_opt (fun (k, _) -> k = c) kids with
+          | Some (_, k) -> lookup k p'
+          | None -> Walk.NErr)
+      | _ -> Walk.NErr)
+
+let split_components (s : coq_N list) : coq_N list list =
+  let sep = Base.coq_SEP in
+  let rec go cur acc = function
+    | [] -> L.rev (if cur = [] then acc else L.rev cur :: acc)
+    | c :: r -> if c = sep then go [] (if cur = [] then acc else L.rev cur :: acc) r else go (c :: cur) acc r
+  in
+  go [] [] s
+
+(* ---- layers ------------------------------------------------------------------------------------------ *)
+type layer_kind = KGlob | KNot | KFilter
+
+let build_tree (e : string) : Token.tok =
+  match Glob.build (!to_str (!unhex e)) with
+  | Glob.BuildOk (t, _) -> t
+  | _ -> raise (Bad "err")
+
+let pred_of (t : Token.tok option) : (coq_N list -> bool) option =
+  match t with
+  | None -> None
+  | Some t ->
+      let r = Encode.encode t in
+      Some (fun s -> !full_match r s)
+
+let cmd_walk (has_casing : coq_N -> bool) (args : string list) : string =
+  try
+    match args with
+    | tree :: mode :: mind :: maxd :: layers ->
+        let root = parse_tree tree in
+        let mind = match int_of_string_opt mind with Some m -> m | None -> 0 in
+        let maxd = int_of_string_opt maxd in
+        let glob_walk, prefix, root, first, pivot =
+          if mode.[0] = 'G' then begin
+            let t = build_tree (String.sub mode 1 (String.length mode - 1)) in
+            let prefix_text =
+              match Query.invariant_text_prefix has_casing t with
+              | Base.Ok (_, s) -> s
+              | Base.Panic _ -> raise (Bad "panic")
+            in
+            let prefix = split_components prefix_text in
+            let progs = if Token.tok_is_empty t then [] else Query.component_programs t in
+            let progs = L.map (fun r -> fun (c : coq_N list) -> !full_match r c) progs in
+            let complete_re = Encode.encode t in
+            let complete = fun s -> !full_match complete_re s in
+            (* the walk root is the directory given joined with the prefix text: with a trailing separator the
+               operating system refuses anything that is not a directory *)
+            let ends_sep = match L.rev prefix_text with c :: _ -> c = Base.coq_SEP | [] -> false in
+            let sub = lookup root prefix in
+            let sub = match sub with Walk.NFile when ends_sep && prefix <> [] -> Walk.NErr | n -> n in
+            (true, prefix, sub, [ (KGlob, Walk.glob_layer prefix progs complete) ], L.length prefix)
+          end
+          else (false, [], root, [], 0)
+        in
+        (* depth behaviours are relative to the directory given to the walk: saturating subtraction of the pivot *)
+        let mind = max 0 (mind - pivot) in
+        let maxd = match maxd with Some m -> Some (max 0 (m - pivot)) | None -> None in
+        let rest =
+          L.map
+            (fun l ->
+              let body = String.sub l 1 (String.length l - 1) in
+              match l.[0] with
+              | 'N' ->
+                  let es = String.split_on_char ',' body in
+                  let tree =
+                    match es with
+                    | [ e ] -> build_tree e
+                    | es -> (
+                        match Query.any_tree (L.map build_tree es) with
+                        | Base.Ok t -> t
+                        | Base.Panic _ -> raise (Bad "panic"))
+                  in
+                  let ex, nx =
+                    match Query.not_partition tree with
+                    | Base.Ok p -> p
+                    | Base.Panic _ -> raise (Bad "panic")
+                  in
+                  (KNot, Walk.not_layer prefix glob_walk (pred_of ex) (pred_of nx))
+              | _ ->
+                  let items = L.filter (fun x -> x <> "") (String.split_on_char ',' body) in
+                  let tbl =
+                    L.map
+                      (fun item ->
+                        match String.split_on_char ':' item with
+                        | [ p; v ] -> (!to_str (!unhex p), if v = "T" then Walk.VTree else Walk.VFile)
+                        | _ -> raise (Bad "bad filter table"))
+                      items
+                  in
+                  (KFilter, Walk.table_layer prefix glob_walk tbl))
+            layers
+        in
+        let all = first @ rest in
+        let ls = L.map snd all in
+        let items = Walk.walk (!nat_of_int mind) (match maxd with Some m -> Some (!nat_of_int m) | None -> None) ls root in
+        let path_hex p = !hex (!of_str (Walk.join_path (prefix @ p))) in
+        let tag_text = function Walk.Filtrate -> "F" | Walk.RNode -> "N" | Walk.RTree -> "T" in
+        let yields =
+          L.filter_map
+            (function
+              | Walk.REntry (e, Walk.Filtrate, _) -> Some (Printf.sprintf "e:%s:%d" (path_hex e.Walk.e_path) (if e.Walk.e_dir then 1 else 0))
+              | Walk.REntry _ -> None
+              | Walk.RError (p, d) -> Some (Printf.sprintf "x:%s:%d" (path_hex p) (!int_of_nat d)))
+            items
+        in
+        let out = Buffer.create 256 in
+        Buffer.add_string out ("ok\tyield=" ^ String.concat ";" yields);
+        Buffer.add_string out (Printf.sprintf "\tpivot=%d" pivot);
+        let k = ref 0 in
+        L.iteri
+          (fun i (kind, _) ->
+            if kind = KFilter then begin
+              let obs =
+                L.filter_map
+                  (function
+                    | Walk.REntry (e, _, seen) -> Some (Printf.sprintf "%s:%s" (path_hex e.Walk.e_path) (tag_text (L.nth seen i)))
+                    | Walk.RError _ -> None)
+                  items
+              in
+              Buffer.add_string out (Printf.sprintf "\tobs%d=%s" !k (String.concat ";" obs));
+              incr k
+            end)
+          all;
+        (* every entry the walk produced with its final tag (for the pruning oracle) *)
+        let feed =
+          L.filter_map
+            (function
+              | Walk.REntry (e, t, _) -> Some (Printf.sprintf "%s:%s" (path_hex e.Walk.e_path) (tag_text t))
+              | Walk.RError _ -> None)
+            items
+        in
+        Buffer.add_string out ("\tfeed=" ^ String.concat ";" feed);
+        Buffer.contents out
+    | _ -> "bad-walk-command"
+  with
+  | Bad msg -> msg
+  | Not_found | Invalid_argument _ | Failure _ -> "bad-walk-command"
